@@ -123,6 +123,8 @@ def aspect(prev, ev, hk):
     if ev.get("e") == "Finish":
         if ev["p"].get("gb"):
             return "finish:detached-fixup-without-label-id"
+        if ev["p"].get("eh") == 0:
+            return "finish:emitter-configuration-changed"
         if ev.get("cmp") and ev["u"] != ev["f"]:
             names = ["style", "flatten", "resolve", "relocate/add", "unresolved", "labels", "bound", "fixups", "bad-fixups", "sections", "size", "bytes"]
             return "finish-differs-from-reference:" + "+".join(n for n, a, b in zip(names, ev["u"], ev["f"]) if a != b)
@@ -132,6 +134,10 @@ def aspect(prev, ev, hk):
     k, r, hc, th, p, q = ev["k"], ev["r"], ev["hc"], ev["th"], prev["p"], ev["p"]
     if q.get("gb"):
         return "detached-fixup-without-label-id"
+    if q.get("eh") == 0:
+        return "emitter-configuration-changed(error-handler/logger/options)"
+    if k == "earr" and r == 0 and prev.get("_head", {}).get("em") == "asm" and (ev.get("ew") or ("eb" in ev and sum(q["ss"]) - sum(p["ss"]) != ev["eb"])):
+        return "accepts-wrapped-size" if ev.get("ew") else "appended-size-differs"
     if k == "inst" and r == 0 and ev.get("vr") and head_is_validating_x86_builder(prev):
         return "accepts-virtual-register-id"
     h_ = prev.get("_head", {})
@@ -323,6 +329,8 @@ def run(ctx):
         "Builder: DiagnosticOptions swept over the subsets of {kValidateAssembler, kValidateIntermediate} (x86 without any validation: operand kinds of real forms are kept); Compiler: kValidateIntermediate always on; an x86 Builder with kValidateIntermediate must refuse virtual register ids; an accepted request that a strictly validating shadow Assembler refuses (state-independent error) must not finalize Ok",
         "fast path: ~30% of the general Assembler executions run without logger and without diagnostic options (x86: operand kinds of real forms kept); each has a twin pass (same seed, logger attached) and every instruction request must be accepted/refused alike; a64 instruction ids are perturbed with every condition code",
         "x86 memory operand fields are drawn over their full bit range (segment 0..7, broadcast 0..7, address type 0..3, shift 0..3), register group fields over 0..15; with validation on, segment 7 / broadcast 7 must be refused (address type 3 and a group inconsistent with the register type are accepted by the validator and encode the instruction the register type / default address type denotes: not alarmed)",
+        "every projection carries eh = emitter configuration intact (error_handler() identity, has_own_error_handler, logger, diagnostic options); Builder/Compiler executions make finalize fail inside a pass now and then (never-created virtual register; a user pass that refuses) under all handler kinds and issue one more refused call afterwards",
+        "embed_data_array on an Assembler: boundary item counts whose exact byte size is >= 2^64 (all type sizes, repeat 1/2/2^63); accepted => appended bytes = count*size*repeat as integers. Exact sizes in [2^31, 2^64) are not generated (astronomic buffer growth = allocation failure, C15)",
         "whether an accepted instruction is CORRECT is C01/C02; here an Ok emit only has to append 1..15 bytes (x86) / 4 bytes (a64) and nothing else",
     ]
     vlib.write_evidence(ctx, "model_checking",
